@@ -296,7 +296,7 @@ def check_query_helpers(ctx, rng):
         o.pop("query"), b.pop("query")
         return o == b
     if op == "include":
-        kw = {rng.choice(["a", "b", "c", "zz", "é"]): rng.choice(["9", 7, "", "p q", 0, "é&="]) for _ in range(rng.randrange(0, 3))}  # (possibly none: **filters with an empty dict)
+        kw = {rng.choice(["a", "b", "c", "zz", "é", "a_", "_", "from_", "__b"]): rng.choice(["9", 7, "", "p q", 0, "é&="]) for _ in range(rng.randrange(0, 3))}  # (possibly none: **filters with an empty dict)
         case["kwargs"] = kw
         new = base.include_query_params(**kw)
         got = parse_qsl(new.query, keep_blank_values=True)
@@ -307,7 +307,7 @@ def check_query_helpers(ctx, rng):
             if [vv for kk, vv in got if kk == k] != [str(v)]:
                 ctx.violation("query|include|key-not-set-to-single-value", case, repr(got))
     elif op == "replace":
-        kw = {rng.choice(["a", "b", "zz"]): rng.choice(["9", 7, ""]) for _ in range(rng.randrange(0, 3))}  # no parameter at all: the query is replaced by an empty one
+        kw = {rng.choice(["a", "b", "zz", "a_", "_", "class_"]): rng.choice(["9", 7, ""]) for _ in range(rng.randrange(0, 3))}  # no parameter at all: the query is replaced by an empty one
         case["kwargs"] = kw
         new = base.replace_query_params(**kw)
         got = parse_qsl(new.query, keep_blank_values=True)
